@@ -59,6 +59,26 @@ CLAIMED = {
         "acceptance/rejection of concrete programs is not executed.",
    technique="static analysis: syntax-tree rules over match arms (environment threading), pairing on all exits, sibling agreement resolver/typer",
    ref="DESIGN.md section 4, C05"),
+ "C14": dict(
+   text="Behavioural equality of the two pipelines is not decided. Decided by sibling cross-checks: compile and link_cores share one back-end "
+        "skeleton (stage order, wiring, one Gensym) and both concatenate packages in topological order; check_package and build_package "
+        "derive the interface identically; both gate on the same merged diagnostics; pre-link and post-link gensym prefixes are disjoint. "
+        "Weak by nature: these are necessary conditions only.",
+   technique="static analysis: sibling cross-check of call skeletons and derived values, loop provenance (topological order), prefix-set disjointness",
+   ref="DESIGN.md section 4, C14"),
+ "C17": dict(
+   text="Static decision of the naming/dispatch plumbing shared by the call forms: impl-function names are built only by the two constructors, "
+        "which use every parameter whole and agree with the reader; all call sites pass (trait, type, method) in the same roles; dyn coercion "
+        "is dominated by the visible-impl test; the overload solver treats none/many as errors; vtable dispatch of a static call requires the "
+        "receiver's dyn trait to be the named trait. Equality of the dispatch paths' results is not decided.",
+   technique="static analysis: who-may-construct on string prefixes, parameter-use rule, guard-dominates-construction",
+   ref="DESIGN.md section 4, C17"),
+ "C18": dict(
+   text="Static decision of the derive expander's dispatch: encoder choice must decide every field type explicitly, the JSON string leaf must "
+        "be a JSON encoder, synthesised binders are outside the identifier grammar, the ToJson and ToString families do not reach each "
+        "other's renderer (call/function-value reachability), and derives are looked up per attribute. Faithfulness for all values is not decided.",
+   technique="static analysis: variant-coverage audit, reachability over function mentions, closure-nesting rule, literal scan",
+   ref="DESIGN.md section 4, C18"),
  "C15": dict(
    text="Static decision of the artifact discipline: hash view = interface fields (table agreement), no serde attribute hides data of "
         "reachable types, no body type is reachable from the hashed exports, every deserialised artifact is validated (hash + "
